@@ -429,3 +429,104 @@ func FuzzC06Spec(f *testing.F) {
 		fuzzJudge(t, "C06", "sigcase", cs)
 	})
 }
+
+// ---------------------------------------------------------------- C20
+
+// FuzzC20Flow: every field of a sale / bid flow is chosen by the engine from the
+// value sets the deterministic generator uses (only the combination is free);
+// funding values are placed relative to price + approximate fee as there.
+func FuzzC20Flow(f *testing.F) {
+	for i := 0; i < 16; i++ {
+		f.Add(uint8(i), uint8(i), uint8(i*3), uint32(i*7919), uint32(i*104729), uint16(i), int16(i-8), uint64(i))
+	}
+	prices := []uint64{1, 2, 546, 1000, 1_000_000, 1_000_000_000}
+	quotes := []c20Quote{{Sat: 5, Bytes: 100}, {Sat: 1, Bytes: 1}, {Sat: 500, Bytes: 1000}, {Sat: 0, Bytes: 1}, {Sat: 3, Bytes: 7}}
+	f.Fuzz(func(t *testing.T, flow, priceQuote, counts uint8, bits, misc uint32, lens uint16, slack int16, seed uint64) {
+		r := prng.New(seed, "C20-fuzz", 0)
+		fl := &c20Flow{Flow: []string{"listing", "listing-2d", "bid", "bid-2d"}[flow%4], SellerKey: r.Bytes(32), BuyerKey: r.Bytes(32),
+			Price: prices[int(priceQuote)%len(prices)], OrdTxID: r.Bytes(32), OrdVout: uint32(counts >> 6), FundTxIDs: r.Bytes(8), Quote: quotes[int(priceQuote/8)%len(quotes)], ChangeLen: 25}
+		fl.SellerKey[0] &= 0x7f
+		fl.BuyerKey[0] &= 0x7f
+		bit := func(k uint) bool { return bits>>k&1 != 0 }
+		fl.OrdInscr, fl.BuyerInscr, fl.OneScriptObject, fl.AcceptTwice, fl.OrdWide = bit(0), bit(1), bit(2), bit(3), bit(0) && bit(4)
+		if bit(5) {
+			fl.ChangeLen = []int{1, 26, 200}[lens%3]
+			fl.OneScriptObject = false
+		}
+		if bit(6) {
+			fl.SellerLen = []int{1, 26, 35, 71, 105, 300}[(lens/3)%6]
+		}
+		if fl.OrdInscr && bit(7) {
+			fl.OrdDataLen = []int{600, 9000, 9990, 12000}[(lens/18)%4]
+		}
+		if fl.OrdInscr && bit(8) {
+			fl.OrdTail = [][]mon.Hex{{{0x31}}, {{0x31, 0x32}}, {{0x00}}, {{0x31}, {0x32}}, {[]byte("app"), []byte("type"), []byte("ord")}, {{0x81}}}[(lens/72)%6]
+		}
+		fl.FundShare = int(misc % 4)
+		fl.Wallet = int(misc / 4 % 4)
+		fl.Quote.Label = int(misc / 16 % 3)
+		fl.Quote.DataMul = []int{0, 0, 10, 3}[misc/48%4]
+		fl.Quote.Relay = int(misc / 192 % 4)
+		fl.BuyerKeys = []int{0, 0, 2, 3}[misc/768%4]
+		fl.CtxDone = []int{0, 0, 0, 1, 2}[misc/3072%5]
+		if misc/15360%4 == 3 {
+			fl.ExpectOther = 1 + int(misc/61440%3)
+		}
+		bid := fl.Flow == "bid" || fl.Flow == "bid-2d"
+		if bid && bit(9) {
+			fl.SellerQuoteExtra = 1 + int(misc/184320)%(1+fl.Quote.Sat/10)
+		}
+		if bid && bit(10) && fl.Price > 2 {
+			fl.AcceptDelta = []int64{-1, 1, 150, 300, 5000, 1000000}[misc/737280%6]
+		}
+		if fl.Flow == "bid-2d" && bit(11) {
+			fl.ExtraUTXOs = []uint64{uint64(500 + r.Intn(5000))}
+		}
+		n := 2 + int(counts%5)
+		twoD := fl.Flow == "listing-2d" || fl.Flow == "bid-2d"
+		if twoD && n < 3 {
+			n = 3
+		}
+		approx := uint64(10+(n+1)*148+4*34) * uint64(fl.Quote.Sat) / uint64(fl.Quote.Bytes)
+		target := int64(fl.Price) + int64(approx) + int64(slack)
+		if target < 2 {
+			target = 2
+		}
+		vals := make([]uint64, n)
+		pos := int(counts/5) % n
+		if twoD {
+			vals[0], vals[1] = uint64(1+r.Intn(3)), uint64(1+r.Intn(3))
+			rest := target
+			for j := 2; j < n; j++ {
+				v := rest / int64(n-j)
+				if j < n-1 && v > 1 {
+					v = 1 + int64(r.Intn(int(min64(v, 1<<30))))
+				}
+				if v < 1 {
+					v = 1
+				}
+				vals[j] = uint64(v)
+				rest -= v
+			}
+		} else {
+			big := int64(fl.Price) + 1 + int64(r.Intn(50))
+			rest := target - big
+			for j := 0; j < n; j++ {
+				if j == pos {
+					vals[j] = uint64(big)
+					continue
+				}
+				v := rest / int64(n-1)
+				if v < 1 {
+					v = 1
+				}
+				vals[j] = uint64(v)
+			}
+			if bit(12) && bit(13) {
+				vals[pos] = fl.Price
+			}
+		}
+		fl.Funding = vals
+		fuzzJudge(t, "C20", "flow", fl)
+	})
+}
